@@ -6,10 +6,11 @@ def run(tier, only=None):
     q = []
     combos = [(40, 5)] if tier == "quick" else [(40, 5), (40, 16), (24, 3), (64, 8)]
     for mb, c in combos:
-        q.append({"name": "c08.growth.q%d.c%d" % (mb, c), "cfile": "glue_c08.c", "mem_buffer": mb, "stubs": True,
-                  "defs": ["-DGLUE_MANAGED", "-DGLUE_NOWRITE", "-DKMAX=2", "-DNPROG=2", "-DNCALLS=2", "-DLMAX=13",
-                           "-DOS_MAXOBJ=%d" % (mb * 3 + 40), "-DBIG=%d" % (mb * 3 + 40), "-DGBUF=8", "-DCFIX=%d" % c],
-                  "timeout": 1500 if tier == "quick" else 5400})
+        for mode, mname in ((0, "plain"), (1, "fitting"), (2, "counting")):     # one query per assemble mode (they run in parallel)
+            q.append({"name": "c08.growth.q%d.c%d.%s" % (mb, c, mname), "cfile": "glue_c08.c", "mem_buffer": mb, "stubs": True,
+                      "defs": ["-DGLUE_MANAGED", "-DGLUE_NOWRITE", "-DKMAX=2", "-DNPROG=2", "-DNCALLS=2", "-DLMAX=13",
+                               "-DOS_MAXOBJ=%d" % (mb * 3 + 40), "-DBIG=%d" % (mb * 3 + 40), "-DGBUF=8", "-DCFIX=%d" % c, "-DMODEFIX=%d" % mode],
+                      "timeout": 1500 if tier == "quick" else 5400})
     if tier != "quick":
         q.append({"name": "c08.growth.q40.c5.k3", "cfile": "glue_c08.c", "mem_buffer": 40, "stubs": True,
                   "defs": ["-DGLUE_MANAGED", "-DGLUE_NOWRITE", "-DKMAX=3", "-DNPROG=3", "-DNCALLS=3", "-DLMAX=13", "-DOS_MAXOBJ=220",
